@@ -2,3 +2,4 @@ pub mod checks;
 pub mod engine;
 pub mod gen;
 pub mod refmodel;
+pub mod corpus;
